@@ -1,7 +1,7 @@
 (* Sym.v — symbolic driver: runs the element-layer model at the expression-tree
    instance and prints every output, one string per scalar. *)
 From Coq Require Import QArith List String Arith Bool.
-From SM Require Import Num Graph Engine Expr Blocks.
+From SM Require Import Num Graph Engine Expr Types Blocks.
 Import ListNotations.
 Local Open Scope string_scope.
 
